@@ -278,6 +278,7 @@ def calibrate():
 
 
 PROP = Property(
+    prelude=True,
     id="C13",
     level="exploration",
     rule=("Hypothesis generates statm 7-tuples (to 2^40 pages) and smaps "
